@@ -74,6 +74,10 @@ def parseTags (t : String) : Option (List Tag) :=
 def parseErr (t : String) : Option ErrRepr :=
   if t == "inv" then some .inv else
   match t.splitOn ":" with
+  | ["io", "os", tok] =>
+    -- an OS error: identified by its errno; "kind" 200 + errno
+    let n := tok.toNat?.getD 0
+    some (.io (200 + (n - 1000000)) n)
   | ["io", k, tok] =>
     -- an error the scripted sink did not make has no numeric token: it can never equal an expected one
     some (.io (k.toNat?.getD 99) (tok.toNat?.getD 0))
@@ -92,7 +96,7 @@ def parseCallObs (t : String) : Option CallObs :=
 
 def fmtErr : ErrRepr → String
   | .inv => "inv"
-  | .io k t => s!"io:{k}:{t}"
+  | .io k t => if k ≥ 200 then s!"io:os:{t}" else s!"io:{k}:{t}"
 
 def fmtCallObs (o : CallObs) : String :=
   (match o.result with
@@ -117,7 +121,9 @@ def parseCall (t : String) : Option PCall :=
     let form ← (if f == "p" then some Form.plain else if f == "t" then some Form.trySend else if f == "s" then some Form.send else none)
     let arg ← parseArg entry v
     let bops ← parseBOps b
-    let sink ← (if s == "a" || s.startsWith "b" then some SinkOut.accept else ((s.drop 1).toString.toNat?).map SinkOut.refuse)
+    let sink ← (if s == "a" || s.startsWith "b" then some SinkOut.accept
+                else if s.startsWith "o" then ((s.drop 1).toString.toNat?).map fun n => SinkOut.refuse (200 + n)
+                else ((s.drop 1).toString.toNat?).map SinkOut.refuse)
     pure ⟨entry, form, unhex k, arg, bops, sink⟩
   | _ => none
 
@@ -174,12 +180,13 @@ def runFmt (prop : String) (f : List String) (obsS : String) : Verdict :=
         | c :: cs', o :: os' =>
           match parseCall c, parseCallObs o with
           | some pc, some io =>
-            match call cfg pc.entry pc.form pc.key pc.arg pc.bops pc.sink (i + 1) with
+            let tok := match pc.sink with | .refuse k => if k ≥ 200 then 1000000 + (k - 200) else i + 1 | _ => i + 1
+            match call cfg pc.entry pc.form pc.key pc.arg pc.bops pc.sink tok with
             | none => bad
             | some mo =>
               let v' := match v with
                 | some x => some x
-                | none => match ckCall cfg pc.entry pc.form pc.key pc.arg pc.bops pc.sink (i + 1) io with
+                | none => match ckCall cfg pc.entry pc.form pc.key pc.arg pc.bops pc.sink tok io with
                   | .ok _ => none
                   | .error e => some (e.prop, e.clause)
               go (i + 1) cs' os' (projectCall prop io :: ip) (projectCall prop mo :: mp) v' (callTags pc mo ++ tg)
@@ -229,6 +236,7 @@ def runRaw (_prop : String) (f : List String) (obsS : String) : Verdict :=
     let expected :=
       if mode == "c" then "unit/~/inv"
       else if sinkS == "a" || sinkS.startsWith "b" then s!"ok/{textH}/~"
+      else if sinkS.startsWith "o" then s!"io:os:{1000000 + ((sinkS.drop 1).toString.toNat?.getD 0)}/{textH}/~"
       else s!"io:{(sinkS.drop 1).toString}:1/{textH}/~"
     let v : Option (String × String) :=
       if obsS.startsWith "panic" then some ("C03+C20", "send_metric / consume_error panicked")
